@@ -5,6 +5,7 @@ package main
 
 import (
 	"fmt"
+	"regexp"
 	"go/token"
 	"go/types"
 	"sort"
@@ -162,8 +163,12 @@ func shortPkg(p *types.Package) string {
 	return path
 }
 
+var anyRe = regexp.MustCompile(`\bany\b`)
+
 func typeKey(t types.Type) string {
-	return types.TypeString(t, func(p *types.Package) string { return shortPkg(p) })
+	s := types.TypeString(t, func(p *types.Package) string { return shortPkg(p) })
+	// `any` and `interface{}` are the same type
+	return anyRe.ReplaceAllString(s, "interface{}")
 }
 
 func (g *Gen) sortOf(t types.Type) Sort {
